@@ -1270,11 +1270,16 @@ class ProcessPoolExecutor(Executor):
         )
 
     def _ensure_executor_running(self):
-        """ensures all workers and management thread are running"""
+        """ensures all workers and management thread are running
+
+        Returns True if some workers had to be spawned.
+        """
         with self._processes_management_lock:
-            if len(self._processes) != self._max_workers:
+            spawned = len(self._processes) != self._max_workers
+            if spawned:
                 self._adjust_process_count()
             self._start_executor_manager_thread()
+        return spawned
 
     def submit(self, fn, *args, **kwargs):
         with self._flags.shutdown_lock:
@@ -1301,9 +1306,7 @@ class ProcessPoolExecutor(Executor):
             # Wake up queue management thread
             self._executor_manager_thread_wakeup.wakeup()
 
-            n_workers = len(self._processes)
-            self._ensure_executor_running()
-            if len(self._processes) != n_workers:
+            if self._ensure_executor_running():
                 # The manager thread may already have gone back to waiting
                 # with the previous set of worker sentinels: wake it up again
                 # so that it also watches the workers that were just spawned,
